@@ -2032,6 +2032,7 @@ def _check_parser_validation(ctx, res: RuleResult):
         return None
     validated: dict[str, int] = {}          # field -> position in flat where all its indices are known to be checked
     problems = []
+    sub_problems = []
     build_pos = None
     n_sub = 0
     for pos, (st, f, cond) in enumerate(flat):
@@ -2082,6 +2083,7 @@ def _check_parser_validation(ctx, res: RuleResult):
                             res.inst(f.fq, f"`{short(x)}` comes after the validation of {idx}", "ok" if ok else "fail")
                             if not ok:
                                 problems.append((f, x, "attribute index is used as a subscript without a preceding existence check: IndexError / KeyError instead of the parser's exception"))
+                                sub_problems.append((pos, F, problems[-1], res.instances[-1] if res.instances else None))
         has_validator_call = any(validated_arg(x) is not None for x in ast.walk(st) if isinstance(x, ast.Call))
         if complete is True:
             if cond:
@@ -2094,6 +2096,87 @@ def _check_parser_validation(ctx, res: RuleResult):
             raise AnalysisError(f"R-ORDERING: loop over {F} in {f.qualname} calls a validator in a form this rule does not read")
     if build_pos is None:
         raise AnalysisError("to_graph no longer calls graph_from_molecule")
+    # a third scheme: one validator call on the largest index of all (all indices exist iff the largest does)
+    if not validated:
+        for pos, (st, f, cond) in enumerate(flat):
+            if not (isinstance(st, ast.Expr) and validated_arg(st.value) is not None) or pos >= build_pos or cond:
+                continue
+            arg = validated_arg(st.value)
+            covered = set()
+
+            def cover(fn_, e, depth=0):
+                """fields whose every index is <= the value of e; raises for a maximum that is taken the wrong way"""
+                if depth > 4:
+                    return
+                if isinstance(e, ast.Call) and isinstance(e.func, ast.Attribute) and isinstance(e.func.value, ast.Name) and e.func.value.id == "self" and not e.args:
+                    tgt_ = repo.mro_method(lis, e.func.attr)
+                    if tgt_ is not None:
+                        env_ = {}
+                        for s_ in tgt_.node.body:
+                            if isinstance(s_, ast.Assign) and isinstance(s_.targets[0], ast.Name):
+                                env_[s_.targets[0].id] = s_.value
+                        for r_ in [x for x in own_walk(tgt_.node) if isinstance(x, ast.Return) and x.value is not None]:
+                            cover(tgt_, _subst(r_.value, env_), depth + 1)
+                    return
+                if isinstance(e, ast.Call) and isinstance(e.func, ast.Name) and e.func.id == "max":
+                    key_ = kwarg(e, "key")
+                    parts = []
+                    for a_ in e.args:
+                        if isinstance(a_, (ast.Tuple, ast.List)):
+                            parts += list(a_.elts)
+                        else:
+                            parts.append(a_)
+                    for a_ in parts:
+                        inner = a_.value if isinstance(a_, ast.Starred) else a_
+                        F_ = field_of(inner) if isinstance(inner, ast.Attribute) else None
+                        if isinstance(inner, ast.Attribute) and F_ is not None:
+                            if fields[F_] == "pairs" and len(e.args) == 1 and not isinstance(a_, ast.Starred):
+                                if key_ is None or norm(key_) != "max":
+                                    raise _LexMax(e, F_)
+                                covered.add(F_)          # the pair whose larger end is largest; the caller takes its maximum
+                            elif fields[F_] == "keys":
+                                covered.add(F_)
+                        elif isinstance(inner, ast.Call):
+                            cover(fn_, inner, depth + 1)
+                        elif isinstance(inner, ast.GeneratorExp) and len(inner.generators) == 2:
+                            F2 = field_of(inner.generators[0].iter)
+                            if F2 is not None and fields[F2] == "pairs" and norm(inner.generators[1].iter) == norm(inner.generators[0].target) and norm(inner.elt) == norm(inner.generators[1].target):
+                                covered.add(F2)
+                    return
+
+            class _LexMax(Exception):
+                def __init__(self, node, field):
+                    self.node, self.field = node, field
+
+            def _subst(e, env_):
+                class Sub(ast.NodeTransformer):
+                    def visit_Name(self, node):
+                        if isinstance(node.ctx, ast.Load) and node.id in env_:
+                            return env_[node.id]
+                        return node
+                import copy
+                return Sub().visit(copy.deepcopy(e))
+            try:
+                cover(f, arg)
+            except _LexMax as lm:
+                res.inst(f.fq, f"`{short(lm.node, 60)}` is the largest index of {lm.field}", "fail")
+                res.fail(Finding("R-ORDERING", f.module.rel, f.qualname, norm(lm.node),
+                                 f"max() over the pairs in {lm.field} compares the pairs as wholes (first end first): the largest index may be the second end of another pair, "
+                                 "so a dangling index passes the check made on `the highest index`", line=getattr(lm.node, "lineno", None)))
+                return
+            if covered:
+                if covered >= set(fields):
+                    res.inst(f.fq, f"`{short(st, 70)}` checks the largest index of {sorted(covered)}: all indices exist iff the largest does", "ok")
+                    for F_ in fields:
+                        validated[F_] = pos
+                    # subscripts that come after this check are covered by it
+                    for spos, sF, prob, inst in sub_problems:
+                        if spos > pos and prob in problems:
+                            problems.remove(prob)
+                            if inst is not None and isinstance(inst, dict) and inst.get("verdict") == "fail":
+                                inst["verdict"] = "ok"
+                else:
+                    raise AnalysisError(f"R-ORDERING: `{short(st, 60)}` checks a maximum that covers {sorted(covered)} of the index fields {sorted(fields)}")
     for F, kind in fields.items():
         if F in validated:
             ok = validated[F] < build_pos
